@@ -3,6 +3,10 @@
 #![cfg_attr(all(doc, CHANNEL_NIGHTLY), feature(doc_auto_cfg))]
 //! Core types and constants for the [Save Our Secrets](https://saveoursecrets.com) SDK.
 
+#[cfg(sos_verif)]
+#[doc(hidden)]
+pub mod verif_hooks;
+
 mod account;
 pub mod commit;
 pub mod constants;
